@@ -314,14 +314,15 @@ def _run_property(pid, tier, seed, logdir):
                              "radv::config::parse_interface (+ parse_duration, parse_num, parse_boolean, parse_dnssl, parse_rdnss, parse_array, parse_pref64, ConfigValue::from_option) from MIR on an interface "
                              "section with the keys %s in this order (null: %s); every integer value symbolic over all of i64, booleans symbolic" % (keys, list(nulls)),
                              "Ok or Err, never a panic/overflow; accepted intervals within their documented bounds (max 4..=1800 s, min >= 3 s, min <= 3/4 max); null => 'do not send', value => recorded as configured, absent => not specified"))
-        spans = [("range", 3), ("range_rev", 2), ("address", 0), ("subnet", 30), ("subnet", 31), ("subnet", 32), ("subnet", 33)]
+        spans = [("range", 3), ("range_rev", 2), ("address", 0), ("subnet", 30), ("subnet", 31), ("subnet", 32), ("subnet", 33), ("routes", 24), ("routes", -1), ("routes", 40), ("routes", 0)]
         if tier == "thorough":
             spans += [("range", 8), ("subnet", 28), ("subnet", 29), ("subnet", 40)]
         for kind, span in spans:
-            jobs.append(cjob("c19_dhcp_policy_%s_%d" % (kind, span), (lambda kind=kind, span=span: props_config.policy_obligation(prog, en, structs, kind, span)),
+            jobs.append(cjob("c19_dhcp_policy_%s_%s" % (kind, span if span >= 0 else "none"), (lambda kind=kind, span=span: props_config.policy_obligation(prog, en, structs, kind, span)),
                              "dhcp::config::Config::parse_policy (+ parse_subnet, parse_string_ip4, str_ip*) from MIR on a policy with %s; addresses symbolic over all 2^32 values" % (
                                  {"range": "apply-range {start, end} with end - start <= %d (end = 255.255.255.255 included)" % span, "range_rev": "apply-range {end, start} with end - start <= %d" % span,
-                                  "address": "apply-address", "subnet": "apply-subnet <any address>/%d" % span}[kind]),
+                                  "address": "apply-address", "subnet": "apply-subnet <any address>/%d" % span,
+                                  "routes": "apply-routes [{prefix: <any address>%s, next-hop: <any address>}]" % ("/%d" % span if span >= 0 else " (no /length)")}[kind]),
                              "Ok or Err, never a panic/overflow; apply-range = [start, end] both ends included; apply-subnet = every address strictly between network and broadcast; prefix lengths > 32 refused"))
         by_parser = {}
         for fname, fam, plen in props_config.prefix_string_cases(tier):
